@@ -1265,3 +1265,118 @@ def a8(ctx):
                           'caller': 'an object passed by non-const reference',
                           'self': 'a member of *this'}.get(o, o)), c.loc)
     ctx.require(n >= 20, 'only %d std::move sites found' % n)
+
+
+# ---------------------------------------------------------------------------------------------
+VG2_TYPE_TESTS = {'is', 'Py_IS_TYPE', 'isinstance', 'IsNamedTupleClass', 'IsNamedTupleInstance', 'IsNamedTuple',
+                  'IsStructSequenceClass', 'IsStructSequenceInstance', 'IsStructSequence', 'DictKeysEqual',
+                  'PyList_CheckExact', 'PyTuple_CheckExact', 'PyDict_CheckExact', 'PyType_Check', 'PyCallable_Check',
+                  'equal'}
+VG2_SCOPE = {
+    'C07': ('src/treespec/flatten.cpp', 'src/treespec/richcomparison.cpp', 'include/optree/pytypes.h'),
+    'C09': ('src/treespec/treespec.cpp',), 'C08': ('src/treespec/constructor.cpp', 'src/treespec/treespec.cpp'),
+    'C11': ('src/treespec/serialization.cpp',), 'C02': ('include/optree/pytypes.h', 'src/registry.cpp'),
+    'C18': ('include/optree/pytypes.h',), 'C12': ('src/registry.cpp',),
+    'C01': ('src/treespec/unflatten.cpp', 'src/treespec/flatten.cpp', 'include/optree/pytypes.h'),
+    'C05': ('src/treespec/traversal.cpp', 'src/treespec/flatten.cpp'),
+}
+
+
+def _vg2_rejecting(a, pos):
+    """outcome of the un-negated atom `a` on which the guard must throw (True / False), or None
+    when the atom is of no class with a fixed convention; `pos` is the sign under which the atom
+    occurs (after `!`)"""
+    from ..cfg import const_eval as ce
+    if a is None:
+        return None
+    if a.kind in CALL_KINDS:
+        nm = a.callee_name()
+        if nm in VG2_TYPE_TESTS:
+            return False                     # not of the expected type / keys not equal -> throw
+        if nm == 'not_equal':
+            return True
+        return None
+    if a.kind == 'BinaryOperator' and a.op in ('==', '!=') and len(a.kids) == 2:
+        r = strip_casts(a.kids[1])
+        if r is not None and r.kind in ('CXXNullPtrLiteralExpr', 'GNUNullExpr'):
+            return a.op == '=='              # a null result of the C API -> throw
+        if ce(r) == -1:
+            return a.op == '=='              # status -1 -> throw
+        return None
+    if a.kind == 'BinaryOperator' and a.op in ('<', '>=') and len(a.kids) == 2 and ce(strip_casts(a.kids[1])) == 0 and \
+            strip_casts(a.kids[0]) is not None and strip_casts(a.kids[0]).kind in CALL_KINDS and \
+            (strip_casts(a.kids[0]).callee_name() or '').startswith('Py'):
+        return a.op == '<'                   # negative status of a C-API call -> throw
+    return None
+
+
+@rule('VG2', floor=40, title='a throw that is guarded by a type test, a null test or a C-API status is reached on the failing outcome')
+def vg2(ctx):
+    """Convention of the engine, confirmed for every site: `if (!PyList_CheckExact(x)) throw`,
+    `if (!IsNamedTupleClass(t)) throw`, `if (!DictKeysEqual(a, b)) throw`, `if (item == nullptr)
+    throw`, `if (PyDict_SetItem(...) < 0) throw`, `if (a.not_equal(b)) throw`.  A guard that
+    throws on the other outcome rejects every valid argument and lets the invalid ones through
+    (wrong results, null dereferences).  Judged on the CFG per atom: the throw is reached from the
+    failing edge and not straight from the other one.  InternalError guards (EXPECT_*) are the
+    engine's own assertions and are not judged."""
+    prog = ctx.cxx()
+    scope = VG2_SCOPE.get(ctx.pid)
+    n = 0
+    seen = set()
+    for f in live_funcs(prog):
+        if f.body is None or not (f.file or '').startswith(('src/', 'include/optree/')):
+            continue
+        guards = []
+        for g in f.body.walk():
+            if g.kind != 'IfStmt' or (g.x or {}).get('hasInit') or (g.x or {}).get('hasVar') or len(g.kids) < 2:
+                continue
+            then = g.kids[1]
+            if then is None:
+                continue
+            st = [k for k in (then.kids if then.kind == 'CompoundStmt' else [then]) if k is not None]
+            if not st:
+                continue
+            last = st[-1]
+            while last.kind == 'ExprWithCleanups' and last.kids:
+                last = last.kids[0]
+            if last.kind != 'CXXThrowExpr' or 'InternalError' in thrown_type(last):
+                continue
+            guards.append((g, last))
+        if not guards:
+            continue
+        cfg = cfg_of(f)
+        for g, th in guards:
+            tn = cfg.cnode_of(th)
+            if tn is None:
+                continue
+            for cn in cfg.nodes:
+                if cn.kind != 'cond' or cn.ast is None or not any(x is cn.ast for x in g.kids[0].walk()):
+                    continue
+                a, pos = unnegate(cn.ast)
+                rej = _vg2_rejecting(a, pos)
+                if rej is None:
+                    continue
+                key = (g.file, g.line, a.text(3))
+                dup = key in seen
+                seen.add(key)
+                # the CFG node tests cn.ast; the atom `a` is true on the edge labelled `pos`
+                lab_rej = rej if pos else (not rej)
+                good = cfg.forward_reachable([w for (w, lab) in cfg.succ[cn.idx] if lab is lab_rej])
+                bad_, work_ = set(), [w for (w, lab) in cfg.succ[cn.idx] if lab is (not lab_rej)]
+                while work_:
+                    x_ = work_.pop()
+                    if x_ in bad_:
+                        continue
+                    bad_.add(x_)
+                    if cfg.nodes[x_].kind != 'cond':
+                        work_ += [w for (w, _) in cfg.succ[x_] if (x_, w) not in cfg.back_edges]
+                if not dup:
+                    n += 1
+                if scope is not None and (f.file or '') not in scope:
+                    continue
+                ctx.check('%s/%s@%s' % (short(f), (a.text(3) or '')[:40], g.line), tn in good and tn not in bad_,
+                          '%s: `%s` leads to the throw on its failing outcome' % (inst(f), a.text(4)[:70]),
+                          '%s: the %s guarded by `%s` is thrown on the wrong outcome of `%s`: valid arguments are '
+                          'rejected and the failing ones go on (wrong results, null dereference)'
+                          % (inst(f), thrown_type(th), g.kids[0].text(4)[:70], a.text(4)[:70]), g.loc)
+    ctx.require(n >= 40, 'only %d guarded throws with a type / null / status test found' % n)
